@@ -7,8 +7,9 @@ group loads, re-issues the interrupted event and replays the later ones.  Theore
 import os
 from . import common as C
 from . import crashweng as K
+from . import c12seq as S
 
-def extend(tier, seed, ob, failures, coverage):
+def extend(tier, seed, ob, failures, coverage, facts=None):
     """adds the core-level failures to `failures` and the core-level coverage under coverage['core_level']"""
     if not (os.path.exists(C.VH) and os.path.exists(C.DRV)):
         return
@@ -24,6 +25,22 @@ def extend(tier, seed, ob, failures, coverage):
         failures.append({"kind": "corr", "signature": "corr:crashw-classes", "what": f"{c['id']} call {i}: {what}",
                          "replay_body": K.case_text(c, None, what), "case": c})
     ob.add("tie:crashcore-class-sequences", not bad, f"{compared} calls compared" if not bad else bad[0][2][:300])
+    if facts is not None:
+        ok_ws = facts.get("writeSeqStatus") == "[1]"
+        ob.add("tie:gen:writeseq", ok_ws, "every case of tools/writeseq.py translated" if ok_ws else "tools/writeseq.py could not linearise a case (its message is the comment of Generated.writeSeq)")
+    if facts is not None and "writeSeq" in facts and facts.get("writeSeqStatus") == "[1]":
+        # three-way tie, execution leg: the order in which each call first writes its storage units is explained by the
+        # write sequence TRANSLATED from the source for the case the call is an instance of
+        sbad, scompared, ssummary, ssamples = S.tie(cases, facts["writeSeq"])
+        for c, i, what in sbad:
+            failures.append({"kind": "corr", "signature": "corr:crashw-writeseq", "what": f"{c['id']} call {i}: {what}",
+                             "replay_body": K.case_text(c, None, what), "case": c})
+        ob.add("tie:crashw-writeseq", not sbad and scompared > 0, f"{scompared} calls: observed first-write order of the storage units explained by Generated.writeSeq" if not sbad else sbad[0][2][:400])
+        stats["writeseq_calls_compared"] = scompared
+        stats["writeseq_matched_paths"] = ssummary
+        stats["writeseq_observed_samples"] = ssamples
+    ok_open, text_open = K.open_findings_tie()
+    ob.add("tie:c12-open-findings", ok_open, text_open)
     stats["calls_compared_with_model"] = compared
     stats["model_class_sequences"] = {k: ",".join(v) for k, v in model.items()}
     stats["tick_signatures"] = {f"{c['id']}:{b['i']}:{b['callkind']}": f"{b['ticks']} ({b['labels']})" for c in cases for b in c["base"]}
